@@ -4,6 +4,7 @@ import (
 	"bytes"
 	"fmt"
 	"io"
+	"strconv"
 	"strings"
 
 	"mvdan.cc/sh/v3/syntax"
@@ -109,8 +110,9 @@ func (t *tracer) call(cmd string, args ...string) {
 		}
 
 		qs, err := syntax.Quote(s, syntax.LangBash)
-		if err != nil { // should never happen
-			panic(err)
+		if err != nil {
+			// For example, a null byte which was read from a file.
+			qs = strconv.Quote(s)
 		}
 		t.stringf("%s %s", cmd, qs)
 	} else {
